@@ -495,8 +495,8 @@ def run(ctx):
         if a != b and not (a[0] == b[0] == "err"):
             ctx.refute(ctx.replay.get("mechanism"), "replayed: differs", dict(w, stock=a, bundled=b))
         return
-    nd = ctx.pick(6000, 300000)
-    nm = ctx.pick(4000, 100000)
+    nd = ctx.pick(16000, 300000)
+    nm = ctx.pick(10000, 100000)
     shards = 16
     dres = common.pmap(differential_shard, [(ctx.seed * 100 + i, nd // shards) for i in range(shards)])
     shapes = set()
@@ -522,7 +522,7 @@ def run(ctx):
         for mech, what, wit in res["refs"][:10]:
             ctx.refute(mech, what, wit)
     ctx.distinct_many(("m",) + s for s in mshapes)
-    extension_cases(ctx, ctx.pick(400, 6000))
+    extension_cases(ctx, ctx.pick(1200, 6000))
     g = G(random.Random(ctx.seed))
     ctx.sample({"differential_template": g.template(False), "options": env_options(random.Random(ctx.seed))})
     ctx.sample({"marker_case": "x\n    {{* ml }}", "expected_lines": lineprefix_ref("first\n  second\n\nfourth\n", "    ")})
